@@ -402,7 +402,7 @@ def main(tier):
             jobs.append(("dconv", ["-e", "-f", s + ("\\" if not s.endswith("\\") else ""), "2012-03-06T10:11:12"], None, "escaped format"))
             jobs.append(("dadd", ["-e", "-f", s, "2012-03-06", "+1d"], None, "escaped format"))
             jobs.append(("dseq", ["-e", "-f", s, "2012-03-06", "2012-03-07"], None, "escaped format"))
-        for s in ["abc\\", "\\", "a\\tb\\", "\\\\\\", "x\\q\\", "a\\nb", "\\a\\b\\e\\f\\r\\v", "tab\\t", "q\\"]:
+        for s in ["abc\\", "\\", "a\\tb\\", "\\\\\\", "x\\q\\", "a\\nb", "\\a\\b\\e\\f\\r\\v", "tab\\t", "q\\", "a\\n", "\\n", "x\\n\\n"]:
             jobs.append(("dconv", ["-e", "-f", s, "2012-03-06T10:11:12"], None, "escaped literal"))
         for _ in range(60 if quick else 600):
             s = "".join(rng.choice("\\\\acnvw`Z") for _ in range(rng.randint(1, 8)))
@@ -504,8 +504,9 @@ def main(tier):
                 if role == "escaped literal" and not bad:
                     # the argv block is contiguous stack memory: a read past the terminator of the format is not a sanitizer event
                     # there, but it shows in the output, which must be the unescaped literal alone
-                    want = unescape(argv[2]) + "\n"
-                    lit_events.append({"e": "Lit", "in": list(argv[2].encode("latin-1")), "out": list(out[:-1] if out.endswith(b"\n") else out + b"?")})
+                    want = unescape(argv[2])
+                    want += "" if want.endswith("\n") else "\n"          # the tools' auto-newline: none is added after a value that ends in one
+                    lit_events.append({"e": "Lit", "in": list(argv[2].encode("latin-1")), "out": list(out)})
                     if out != want.encode("latin-1"):
                         rep.disagree("%s %s: output is not the unescaped literal (format read beyond its end?)" % (tool, role),
                                      {"argv": [repr(a) for a in argv], "stdout": repr(out[:80]), "want": repr(want), "rc": rc})
